@@ -28,7 +28,7 @@ BUDGET = {'quick': 240, 'thorough': 3000}
 
 
 def shards(tier):
-    return e1.std_shards(tier)
+    return e1.std_shards(tier, with_p=True, with_big=True)
 
 
 def check_case(case, ctr):
